@@ -135,3 +135,17 @@ Proof.
     apply in_flat_map in Hp. destruct Hp as [x [Hx Ht]]. apply in_flat_map. exists x. split; [|exact Ht].
     apply in_flat_map. exists n. split; [exact Hn|exact Hx].
 Qed.
+
+(* The base directory a tensor has after load(): the model directory when the traversal reaches it, whatever other
+   external_data entries (basepath, checksum, unknown keys — kept in tensor.meta since fb2515e) the model file carries
+   for it.  E = the type of those entries, B = base directories. *)
+Definition base_after_load {B E : Type} (model_dir : B) (m : model) (t : tens) (old : B) (entries : E) : B :=
+  if gets_base m t then model_dir else old.
+
+Theorem base_after_load_ignores_entries {B E : Type} (model_dir old : B) m t (e1 e2 : E) :
+  base_after_load model_dir m t old e1 = base_after_load model_dir m t old e2.
+Proof. reflexivity. Qed.
+
+Theorem load_assigns_model_dir {B E : Type} (model_dir old : B) m t (e : E) :
+  occ_model m t -> snd t = true -> base_after_load model_dir m t old e = model_dir.
+Proof. intros H He. unfold base_after_load. rewrite (traversal_complete m t H He). reflexivity. Qed.
